@@ -449,7 +449,7 @@ impl Scenario for QFlushScn {
     }
 
     fn max_steps(&self) -> usize {
-        20000
+        20000 + 60 * self.prog.len()
     }
 
     fn make(&self) -> (Box<dyn FnOnce() + Send + 'static>, Box<dyn FnOnce(&EndState) -> Verdict + Send + 'static>) {
@@ -483,7 +483,7 @@ impl Scenario for QFlushScn {
             for op in scn.prog.bytes() {
                 match op {
                     b'E' => {
-                        let key = format!("{}", (b'a' + k as u8) as char);
+                        let key = format!("k{:04}", k);
                         k += 1;
                         match client.count(&key, 1) {
                             Ok(_) => {
@@ -565,7 +565,7 @@ impl Scenario for QFlushScn {
                         for (m, _) in &inner {
                             let n = have.iter().filter(|x| *x == m).count();
                             if n != 1 {
-                                br(&mut out, &["C06", "C09"], "queue-drop-conservation", format!("after the client was dropped and everything came to rest, {:?} appears {} times on the wire ({:?})", m, n, have));
+                                br(&mut out, &["C06", "C09", "C12"], "queue-drop-conservation", format!("after the client was dropped and everything came to rest, {:?} appears {} times on the wire ({:?})", m, n, have));
                             }
                         }
                         flags.push("final-wire-checked");
@@ -574,7 +574,7 @@ impl Scenario for QFlushScn {
                 }
             }
             if !log.iter().any(|e| matches!(e, QEv::Final { .. })) {
-                br(&mut out, &["C06", "C09"], "stuck", format!("the program did not come to rest: {:?}", end.unfinished()));
+                br(&mut out, &["C06", "C09", "C12"], "stuck", format!("the program did not come to rest (metrics accepted by the client never reached the buffered sink?): {:?}", end.unfinished()));
             }
             let sig: Vec<String> = log
                 .iter()
